@@ -243,16 +243,18 @@ CLASSES["CompE"] = {"class": "mingus.containers.composition.Composition", "field
 
 def _co_eq_shapes():
     bars = ["[]", "[" + _EK[0] + "]", "[" + _EK[1] + "]"]
-    tracks = [None, []] + [[b] for b in bars]      # None: no track at all
+    one = [[]] + [[b] for b in bars]                 # a track: no bar, or one bar of 0..1 entries
+    comps = [[]] + [[t] for t in one] + [[[], []], [[], [bars[1]]], [[bars[2]], []]]     # 0..2 tracks
     out = []
-    for a in tracks:
-        for b in tracks:
-            ft = {"self.tracks": "[]" if a is None else "[TrackX]", "other.tracks": "[]" if b is None else "[TrackX]"}
-            for side, t in (("self", a), ("other", b)):
-                if t is not None:
-                    ft["%s.tracks.0.bars" % side] = "[" + ",".join(["BarE"] * len(t)) + "]"
+    for a in comps:
+        for b in comps:
+            ft = {}
+            for side, c in (("self", a), ("other", b)):
+                ft["%s.tracks" % side] = "[" + ",".join(["TrackX"] * len(c)) + "]"
+                for j, t in enumerate(c):
+                    ft["%s.tracks.%d.bars" % (side, j)] = "[" + ",".join(["BarE"] * len(t)) + "]"
                     for i, sh in enumerate(t):
-                        ft["%s.tracks.0.bars.%d.bar" % (side, i)] = sh
+                        ft["%s.tracks.%d.bars.%d.bar" % (side, j, i)] = sh
             out.append({"field_types": ft})
     return out
 
@@ -266,5 +268,5 @@ CONTRACTS[CO + "__eq__"] = dict(
     ensures=[("same-tracks-in-the-same-order",
               "result == (len(self.tracks) == len(other.tracks) and all([%s for t in range(len(self.tracks))]))" % _TR_EQ)],
     split=_co_eq_shapes(), split_is_domain=True, properties=["C14"], battery="comp_pairs",
-    notes="domain: compositions of 0..1 tracks of 0..1 bars of 0..1 entries, arbitrary values and pitches; larger ones: "
+    notes="domain: compositions of 0..1 tracks of 0..1 bars of 0..1 entries, and three shapes of 2 tracks; arbitrary values and pitches; larger ones: "
           "run-time battery")
